@@ -86,6 +86,51 @@ def idiom_next_unused_enumerate(fn):
     return None
 
 
+def _binding(fn, name):
+    vals = [n.value for n in ast.walk(fn) if isinstance(n, ast.Assign) and any(isinstance(t, ast.Name) and t.id == name for t in n.targets)]
+    return vals[0] if len(vals) == 1 else None
+
+
+def _int_elements(fn, seq, depth=0):
+    """Is `seq` (an expression) a collection whose elements are integers by construction?"""
+    if depth > 4 or seq is None:
+        return False
+    if isinstance(seq, ast.Name):
+        return _int_elements(fn, _binding(fn, seq.id), depth + 1)
+    if isinstance(seq, ast.Call) and dotted(seq.func) in ("sorted", "list", "set", "tuple") and seq.args:
+        return _int_elements(fn, seq.args[0], depth + 1)
+    if isinstance(seq, (ast.ListComp, ast.GeneratorExp, ast.SetComp)):
+        e = seq.elt
+        if isinstance(e, ast.Call) and dotted(e.func) == "int":
+            return True
+        if isinstance(e, ast.Attribute) and e.attr == "idx":
+            return True  # PackURI.idx: int | None
+        if isinstance(e, ast.Name):
+            for g in seq.generators:
+                if isinstance(g.target, ast.Name) and g.target.id == e.id:
+                    return _int_elements(fn, g.iter, depth + 1)
+        return False
+    return False
+
+
+def gap_scan_problem(fn):
+    """A first-gap scan (`enumerate(P)` compared position by position) is only sound over a numerically ascending P:
+    the enumerated sequence must be sorted(...) of integers.  Returns a description of the problem or None."""
+    for n in ast.walk(fn):
+        if isinstance(n, ast.Call) and dotted(n.func) == "enumerate" and n.args:
+            seq = n.args[0]
+            src = seq
+            if isinstance(seq, ast.Name):
+                src = _binding(fn, seq.id)
+            if not (isinstance(src, ast.Call) and dotted(src.func) == "sorted"):
+                return "the gap scan enumerates `%s`, which is not sorted: in document order an id below an earlier one is skipped " \
+                       "and a used value can be returned" % ast.unparse(seq)
+            if src.keywords or not _int_elements(fn, src.args[0]):
+                return "the gap scan enumerates `%s`, sorted by something other than the integer it is compared with (strings / " \
+                       "part names sort image10 before image2)" % ast.unparse(seq)
+    return None
+
+
 def idiom_len_plus_one(fn):
     for n in ast.walk(fn):
         if isinstance(n, ast.BinOp) and isinstance(n.op, ast.Add) and isinstance(n.right, ast.Constant) and n.right.value == 1 \
@@ -212,6 +257,8 @@ def run(ctx):
                 miss, (", found narrowing " + str(bad)) if bad else ""), file=f.file, line=f.line)
         elif not idi:
             ctx.violation("R6.2", key + ":idiom", "no recognised fresh-value idiom in the allocator", file=f.file, line=f.line)
+        elif any("gap" in i or "enumerate" in i for i in idi) and gap_scan_problem(f.node):
+            ctx.violation("R6.2", key + ":order", gap_scan_problem(f.node), file=f.file, line=f.line)
         elif not q.endswith(".max_shape_id") and _stale_returns(f):
             r = _stale_returns(f)[0]
             ctx.violation("R6.2", key + ":return", "a return path yields `%s`, which is not fresh by construction" % ast.unparse(r.value),
